@@ -29,11 +29,14 @@ from .wma import WMA
 INDICATOR_MAP = {
     "Amorph": Amorph,
     "Counter": Counter,
+    "COUNT": Counter,
     "aroon": AROON,
+    "AROON": AROON,
     "ADX": ADX,
     "ATR": ATR,
     "BBANDS": BBANDS,
     "donchian": Donchian,
+    "DONCHIAN": Donchian,
     "EMA": EMA,
     "HL": HighestLowest,
     "HLA": HighLowAverage,
